@@ -10,6 +10,7 @@ import (
 	"io"
 	"reflect"
 	"sort"
+	"strconv"
 	"strings"
 
 	"mellium.im/xmlstream"
@@ -52,7 +53,7 @@ func mustJID(s string) jid.JID {
 }
 
 type stz struct {
-	kind                        string
+	kind                           string
 	space, id, to, from, lang, typ string
 }
 
@@ -223,7 +224,9 @@ func genPayload(r *common.Rand) []xml.Token {
 
 type ctxT struct{ r *common.Run }
 
-func (c *ctxT) fail(clause, key string, lines []string, detail string) { c.r.Fail(clause, key, lines, detail) }
+func (c *ctxT) fail(clause, key string, lines []string, detail string) {
+	c.r.Fail(clause, key, lines, detail)
+}
 
 // encodeTokens prints a token reader with a plain encoder.
 func encodeTokens(tr xml.TokenReader) ([]byte, error) {
@@ -903,6 +906,9 @@ func Run(r *common.Run) error {
 		}
 	}
 	r.Exhaustive = append(r.Exhaustive, "stanza error: every defined condition x every defined type")
+	r.Mark("case several readers alive")
+	c.multiAll(rnd, r.Pick(1, 8))
+	r.Exhaustive = append(r.Exhaustive, "every function that returns a token reader x k = 2..4 readers made before any is read x every drain order")
 	n := r.Pick(1500, 30000)
 	for i := 0; i < n; i++ {
 		switch rnd.Intn(5) {
@@ -1008,5 +1014,19 @@ func (c *ctxT) replayLine(l string, rnd *common.Rand) {
 		c.errCase(serr{un(f[2]), un(f[3]), un(f[4]), texts(f[5])}, dec(f[6]), rnd)
 	case f[1] == "sterr" && len(f) == 6:
 		c.stErrCase(sterr{un(f[2]), un(f[3]), texts(f[4])}, dec(f[5]))
+	case f[1] == "multi" && len(f) == 6:
+		k, _ := strconv.Atoi(f[3])
+		var order []int
+		for _, o := range strings.Split(f[4], ",") {
+			i, err := strconv.Atoi(o)
+			if err != nil || i < 0 || i >= k {
+				return
+			}
+			order = append(order, i)
+		}
+		vs, _ := strconv.ParseUint(f[5], 10, 64)
+		if k >= 1 && k <= 8 {
+			c.multiCase(f[2], k, order, vs)
+		}
 	}
 }
